@@ -3,7 +3,7 @@ C01 — "every such object is described by a satisfying assignment — by exactl
 documented variables are just the object": explicit bijections between the satisfying
 assignments restricted to the variables `1..nvars` and the combinatorial objects.
 -/
-import Lemmas.FamBij
+import Lemmas.C01Bij
 import Props.C01.Php
 import Props.C01.Counting
 import Mathlib.Data.List.Nodup
